@@ -108,7 +108,7 @@ fn mk_plan(rid: u32, framing: &str, status: u16, cut_at: Option<usize>, stall: b
     let cut = cut_at.map(|c| c.min(attrs_len.saturating_sub(1)));
     Plan {
         rid,
-        script: Script { framing: framing.into(), status, body, frag, cut_at: cut, stall_ms: if stall { 5000 } else { 0 } },
+        script: Script { framing: framing.into(), status, body, frag, cut_at: cut, stall_ms: if stall { 5000 } else { 0 }, drip_ms: 0 },
         resp,
         resp_payload,
         cut: cut.is_some(),
@@ -116,6 +116,7 @@ fn mk_plan(rid: u32, framing: &str, status: u16, cut_at: Option<usize>, stall: b
 }
 
 struct Ctx {
+    drip_total: u64,
     sink: Sink,
     plans: Plans,
     server4: Server,
@@ -165,13 +166,31 @@ fn result_json(r: Result<(J, Vec<u8>), IppError>, expect_payload: &[u8]) -> J {
 }
 
 impl Ctx {
+    fn exchange_drip(&mut self, sends: Vec<(u32, &'static str, String, Cfg, Vec<u8>, usize)>, plans: Vec<Plan>, total_ms: u64) {
+        self.drip_total = total_ms;
+        self.exchange("slow server exceeding the request timeout", sends, plans, None, false);
+        self.drip_total = 0;
+    }
+
     /// one group of sends; `sends` = (rid, client kind, target, cfg, request payload, k)
     fn exchange(&mut self, what: &str, sends: Vec<(u32, &'static str, String, Cfg, Vec<u8>, usize)>, plans: Vec<Plan>, release: Option<Vec<u32>>, v6: bool) {
         let ids: Vec<u32> = sends.iter().map(|s| s.0).collect();
         let side = json!({"what": what, "ids": ids, "sends": sends.iter().map(|s| json!({"rid": s.0, "client": s.1, "target": s.2, "payload_len": s.4.len()})).collect::<Vec<_>>()});
         self.sink.emit(&json!({"ev": "exch", "ids": ids, "what": what}), &side);
         let expect_resp: HashMap<u32, Vec<u8>> = plans.iter().map(|p| (p.rid, p.resp_payload.clone())).collect();
-        let scripts: HashMap<u32, J> = plans.iter().map(|p| (p.rid, script_json(p))).collect();
+        let drip_total = self.drip_total;
+        let scripts: HashMap<u32, J> = plans
+            .iter()
+            .map(|p| {
+                let mut j = script_json(p);
+                if drip_total > 0 {
+                    j["stall"] = json!(true);
+                    j["stall_ms"] = json!(drip_total);
+                    j["drip_ms"] = json!(p.script.drip_ms);
+                }
+                (p.rid, j)
+            })
+            .collect();
         {
             let mut m = self.plans.lock().unwrap();
             m.clear();
@@ -309,14 +328,14 @@ pub fn run(a: &Args) {
             let rid = if seen.body.len() >= 8 { u32::from_be_bytes([seen.body[4], seen.body[5], seen.body[6], seen.body[7]]) } else { 0 };
             match plans.lock().unwrap().get(&rid) {
                 Some(p) => p.script.clone(),
-                None => Script { framing: "length".into(), status: 500, body: vec![], frag: 0, cut_at: None, stall_ms: 0 },
+                None => Script { framing: "length".into(), status: 500, body: vec![], frag: 0, cut_at: None, stall_ms: 0, drip_ms: 0 },
             }
         })
     };
     let server4 = Server::start(mk_responder(plans.clone()), false);
     let server6 = std::panic::catch_unwind(|| Server::start(mk_responder(plans.clone()), true)).ok();
     let rt = tokio::runtime::Builder::new_multi_thread().worker_threads(4).enable_all().build().unwrap();
-    let mut cx = Ctx { sink: Sink::new(&out, "trace"), plans, server4, server6, rt, n: 0, samples: vec![] };
+    let mut cx = Ctx { drip_total: 0, sink: Sink::new(&out, "trace"), plans, server4, server6, rt, n: 0, samples: vec![] };
     let p4 = cx.server4.port;
     let mut r = Rng::new(seed);
     let cfgs = [
@@ -430,6 +449,24 @@ pub fn run(a: &Args) {
                         cx.exchange("fragmented response / large payloads", vec![(id, kind, targets4[id as usize % 4].clone(), cfgs[id as usize % 3].clone(), pattern(*req_pay, id), id as usize)], vec![plan], None, false);
                     }
                 }
+            }
+        }
+    }
+    // (H) a slow but never silent server: the answer dribbles in for longer than the request timeout
+    if want("drip") {
+        for framing in ["length", "chunked", "close"] {
+            for kind in ["blocking", "async"] {
+                let id = next_rid();
+                let mut plan = mk_plan(id, framing, 200, None, false, 0, 2, 0);
+                let pieces = 12usize;
+                plan.script.frag = (plan.script.body.len() / pieces).max(1);
+                plan.script.drip_ms = 130;
+                // total duration of the answer; reported as the stall length so that the trace specification
+                // demands an error well before it
+                plan.script.stall_ms = 0;
+                let total = 130 * (plan.script.body.len() / plan.script.frag) as u64;
+                let cfg = Cfg { timeout_ms: Some(400), ..cfgs[0].clone() };
+                cx.exchange_drip(vec![(id, kind, targets4[id as usize % 4].clone(), cfg, vec![], 2)], vec![plan], total);
             }
         }
     }
